@@ -6,7 +6,8 @@ import VrpModel.Cache
 flag and every cached attribute of the Python objects as a separate field and has one Lean function per Python
 method; each function performs the method's reads and writes of flags and caches in program order.  The
 cache-free SPECIFICATION (`ArcAbs` / `SeqAbs`, `specStep`, `specRun`) answers the same operations from the
-instance state alone.  `VrpProofs/Props/C14c.lean` proves that the objects refine the specification.
+instance state alone.  Operations: the queries, the heuristic `make_feasible`, and (D19) the public MUTATORS of the
+formulation objects, every one of which calls the hook `_problem_changed()` before it touches the problem data.  `VrpProofs/Props/C14c.lean` proves that the objects refine the specification.
 
 ## `ArcBasedRoutingProblem` (`formulations/arc_based_rp.py`): Python statement → model clause
 
@@ -37,10 +38,17 @@ instance state alone.  `VrpProofs/Props/C14c.lean` proves that the objects refin
 | `get_constraint_data`: `build_constraints()`; `n = get_num_variables()` | `getConstraintData` (same order)                          |
 | `get_sufficient_penalty(feas)`                                          | `getSufficientPenalty` (no flag, no cache)                |
 | `RoutingProblem.get_qubo`: `get_sufficient_penalty`, `get_constraint_data`, [`get_objective_data` unless `feasibility`] | `getQubo` (same order; the objective is NOT built in feasibility mode) |
+| `_problem_changed`: three flags `= False` (the hook, D19)                | `ArcObj.problemChanged` (= `resetAll`)                    |
+| `add_time_points(pts)`: `self._problem_changed()`; `self.time_points = np.unique(pts)` | `ArcObj.addTimePoints`: hook, then `ArcInst.addTimePoints` (`addTimePointsWith hook` is parametric in the flag action, for the defective variant) |
+| `RoutingProblem.add_node / set_depot / add_arc / set_vehicle_cap / set_initial_loading`: `self._problem_changed()`; `return self.vrptw.<same>(…)` | `ArcObj.mutate m`: hook FIRST, then `gmut .base` (`gstep .base` for the three graph calls, `cap` / `init` fields for the two setters); a raising call (`ValueError`: unknown / duplicate name, inverted window) leaves the problem data as they were, with the flags already unset |
 | `make_feasible`: greedy phase (no cache access)                         | `ArcInst.greedy` (`VrpModel/Cache.lean`)                  |
 |   `for n in unvisited_indices:` head: three flags `= False`             | `dummyStep`: `head o` (= `resetAll` in the real code)     |
-|   `assert not check_arc`, `add_arc`, `assert added`, `get_arrival_time` | `dummyStep` (object keeps the arcs added so far on error) |
-|   `check_and_add_exit_arc`: `if not check_arc: add_arc …; assert added; three flags = False` | `checkAndAddExitArc`: `exit` (= `resetAll`) applied ONLY when the arc is added |
+|   `assert not self.check_arc(arc)`                                      | `dummyStep`: `(o0, .error .assert)` — after the head reset, before any `add_arc` |
+|   `added = self.add_arc(depot_nm, node_nm, 0, high_cost)`               | `o0.mutate (.op (.addArc …))`: the PUBLIC mutator — hook (three flags `= False`) at this program point, then the arc |
+|   `assert added`, `get_arrival_time`, `assert in_tp`                    | `dummyStep` (object keeps the arcs added so far, and the unset flags, on error) |
+|   `check_and_add_exit_arc`: `if not check_arc: added = self.add_arc(…)` | `checkAndAddExitArc`: `o.mutate (.op (.addArc …))` — hook, then the arc; the flags are unset also when the arc is refused |
+|     `assert added`                                                      | `(a.1, .error .assert)` with `a.1` the object after the hook |
+|     three flags `= False` (explicit, after the `assert`)                | `exit a.1` (= `resetAll`; redundant after the hook)       |
 |   `self.enumerate_variables()` (honours the flag)                       | `storeSolution`: `o.enumerateVariables`                   |
 |   `self.feasible_solution = np.zeros(self.num_variables)`               | reads the CACHED `numVariables`                           |
 |   `self.get_var_index(*a)` per used arc                                 | `lookupAll` (each lookup = `getVarIndex`, object threaded) |
@@ -49,11 +57,13 @@ instance state alone.  `VrpProofs/Props/C14c.lean` proves that the objects refin
 When `make_feasible` raises midway the object keeps the state reached so far (`makeFeasibleWith` returns the
 partial object together with the error; the stored solution is untouched unless the final lookup fails).
 
-`makeFeasibleWith head exit` is parametric in the two reset actions so that defective variants (a forgotten flag,
-a reset at only one site) are expressible; `makeFeasible = makeFeasibleWith resetAll resetAll` is the code.
-(`Props/C14c.lean`: with the loop-head reset intact the reset inside `check_and_add_exit_arc` is redundant for
-`make_feasible` — `v1_equivalent`; dropping a flag at the loop head, or the whole loop-head reset, breaks refinement —
-`v1b_not_refines`, `v1c_not_refines`, `v2_not_refines`.)
+`makeFeasibleWith head exit` is parametric in the two EXPLICIT reset actions (loop head, after the `assert` of
+`check_and_add_exit_arc`) so that variants are expressible; `makeFeasible = makeFeasibleWith resetAll resetAll` is the
+code.  The hook inside `add_arc` is NOT a parameter: it is part of the mutator.  Since every change of the problem data
+inside the arc heuristic goes through `add_arc`, the two explicit resets have become redundant for refinement
+(`Props/C14c.lean`: `arc_runWith_refines` for any harmless `head` / `exit`, `v1_equivalent`, `v1b_refines`, `v1c_refines`,
+`v2_refines`, `arc_no_explicit_reset_refines`); they still show in the flags (`v2_flags_differ`).  A mutator that forgets the
+hook breaks refinement (`arc_addTimePoints_nohook_not_refines`).
 
 ## `SequenceBasedRoutingProblem` (`formulations/sequence_based_rp.py`)
 
@@ -69,12 +79,26 @@ Flags: `variables_enumerated`, `objective_built`, `lin_con_built`, `quad_con_bui
 | `get_objective_data`: `build_objective()`                               | `getObjectiveData`                                        |
 | `get_constraint_data`: `build_linear_constraints(); build_quadratic_constraints()` | `getConstraintData` (linear part stays built when the quadratic part raises) |
 | `get_qubo`                                                              | `getQubo` (base-class composition, as for arc)            |
+| `_problem_changed`: four flags `= False` (the hook, D19)                 | `SeqObj.problemChanged` (= `resetAll`)                    |
+| `set_max_vehicles(v)`: `self._problem_changed()`; `max_vehicles = v`; `vehicle_cost = [0]*v` | `SeqObj.setMaxVehicles`: hook, then `SeqInst.setMaxVehicles` (`setMaxVehiclesWith hook` parametric, for the defective variant) |
+| `set_max_sequence_length(l)`: `self._problem_changed()`; `max_sequence_length = int(l)` | `SeqObj.setMaxSeqLen`: hook, then `SeqInst.setMaxSeqLen` |
+| `add_arc` (override): `self._problem_changed()`; strict rule / `super().add_arc` (hook again, flags already unset) | `SeqObj.mutate (.op (.addArc …))`: hook, then `gstep (.seq strict)` |
+| `set_depot` (override): `super().set_depot` = `self._problem_changed()`; `vrptw.set_depot`; strict: arcs re-added through `self.add_arc` (hook each time); `arcs[(0,0)] = …` | `SeqObj.mutate (.op (.setDepot nm))`: hook, then `gstep (.seq strict) g (.setDepot nm)`; unknown name: `ValueError`, flags unset, data unchanged |
+| `add_node`, `set_vehicle_cap`, `set_initial_loading` (base class): hook, `vrptw` call | `SeqObj.mutate (.op (.addNode …))`, `(.cap c)`, `(.init l)` |
 | `make_feasible`: vehicle loop, `_ensure_exit_arc(current_node)`         | `vehLoop` / `fill` / `ensureExitArc`                      |
-| `_ensure_exit_arc`: `if check_arc: return`; `add_arc` refused → `raise ValueError`; four flags `= False` | `ensureExitArc`: `exit` (= `resetAll`) applied ONLY when the arc is added |
+| `_ensure_exit_arc`: `if check_arc: return` (no flag write)              | `ensureExitArc`: `(o, .ok ())`                            |
+|   `if not self.add_arc(node_nm, depot_nm, 0, 0): raise ValueError`      | `o.addArcIdx cur 0 0 0`: the PUBLIC mutator — hook (four flags `= False`), then the arc; refused → `(a.1, .error .value)` with the flags unset |
+|   four flags `= False` (explicit, after the arc was added)              | `exit a.1` (= `resetAll`; redundant after the hook)       |
 | `for ni in unvisited_indices:` head: four flags `= False`               | `dummyStep`: `head o` (= `resetAll`)                      |
-|   `vi = self.max_vehicles; self.max_vehicles += 1; self.vehicle_cost.append(high_cost)` | `V := v + 1`, `vcost := vcost ++ [high]` (kept when a later `add_arc` is refused) |
-|   entry / exit arc: `if not check_arc: if not add_arc: raise ValueError` (no flag write here) | `dummyStep` (no reset at these two add sites, as in the code) |
+|   `vi = self.max_vehicles; self.max_vehicles += 1; self.vehicle_cost.append(high_cost)` | `V := v + 1`, `vcost := vcost ++ [high]` — direct attribute writes, NO hook (kept when a later `add_arc` is refused) |
+|   entry / exit arc: `if not check_arc: if not self.add_arc(…): raise ValueError` | `ensureArc` twice: no flag write when the arc exists; otherwise `addArcIdx` (hook, then the arc; refused → `.error .value` with the flags unset) |
 |   `enumerate_variables()`, `np.zeros(self.num_variables)`, `get_var_index` lookups, `feasible_solution = None; raise` | `storeSolution` |
+
+`makeFeasibleWith head exit`: `head` = explicit flag action at the head of the dummy-vehicle loop, `exit` = explicit flag
+action at the end of `_ensure_exit_arc`.  After D19 the `exit` reset is redundant (`Props/C14c.lean`:
+`seq_exit_noreset_equivalent`), the `head` reset is NOT (`seq_head_noreset_not_refines`: the loop writes `max_vehicles` /
+`vehicle_cost` directly and both arcs may already exist, so no `add_arc` need follow).  A mutator that forgets the hook
+breaks refinement (`seq_setMaxVehicles_nohook_not_refines`).
 
 ## What is not mirrored
 
@@ -117,6 +141,21 @@ deriving Repr, DecidableEq
 
 /-- `feasible_solution[var_index] = 1` for every found index -/
 def solVec (n : Nat) (idxs : List Nat) : List Rat := (List.range n).map fun k => if k ∈ idxs then 1 else 0
+
+/-! ## graph-level mutators of `RoutingProblem` -/
+
+/-- what the public mutators of the base class `RoutingProblem` forward to the `vrptw` object -/
+inductive GMut where
+  | op (op : GOp)          -- `add_node`, `set_depot`, `add_arc` (the flavour decides which `add_arc` / `set_depot`)
+  | cap (c : Rat)          -- `set_vehicle_cap`
+  | init (l : Rat)         -- `set_initial_loading`
+deriving Repr
+
+/-- the `vrptw` call (for the sequence flavour: the overriding `add_arc` / `set_depot`) -/
+def gmut (fl : Flavor) (g : Graph) : GMut → Graph × GOut
+  | .op op => gstep fl g op
+  | .cap c => ({ g with cap := some c }, .ok none)
+  | .init l => ({ g with init := some l }, .ok none)
 
 /-! ## arc-based object -/
 
@@ -236,25 +275,48 @@ def ArcObj.getQubo (o : ArcObj) (feas : Bool) (rho? : Option Rat) : ArcObj × Ex
 def ArcObj.resetAll (o : ArcObj) : ArcObj :=
   { o with variablesEnumerated := false, constraintsBuilt := false, objectiveBuilt := false }
 
-/-- `check_and_add_exit_arc(node_index, cost)`; `exit` is the flag action after a successful `add_arc` -/
+/-- the hook `ArcBasedRoutingProblem._problem_changed()` (the same three assignments) -/
+def ArcObj.problemChanged (o : ArcObj) : ArcObj := o.resetAll
+
+/-- a public mutator of the base class `RoutingProblem` called on the arc object (`add_node`, `set_depot`, `add_arc`,
+    `set_vehicle_cap`, `set_initial_loading`): `self._problem_changed()`, then the `vrptw` call.  When the call raises,
+    the hook has already run and the problem data are untouched (`gmut` returns the graph as it was together with the
+    error, `VrpProofs/Lemmas/CacheFlags.lean: gmut_error_fst`). -/
+def ArcObj.mutate (o : ArcObj) (m : GMut) : ArcObj × GOut :=
+  let o0 := o.problemChanged
+  let a := gmut .base o0.inst.g m
+  ({ o0 with inst := { o0.inst with g := a.1 } }, a.2)
+
+/-- `add_time_points(pts)`; `hook` is the flag action at the top of the method (`problemChanged` in the code) -/
+def ArcObj.addTimePointsWith (hook : ArcObj → ArcObj) (o : ArcObj) (pts : List Rat) : ArcObj :=
+  let o0 := hook o
+  { o0 with inst := o0.inst.addTimePoints pts }
+
+/-- `ArcBasedRoutingProblem.add_time_points(pts)` -/
+def ArcObj.addTimePoints (o : ArcObj) (pts : List Rat) : ArcObj := o.addTimePointsWith ArcObj.problemChanged pts
+
+/-- `check_and_add_exit_arc(node_index, cost)`; `exit` is the explicit flag action after a successful `add_arc`.
+    `self.add_arc(...)` is the public mutator: it runs the hook BEFORE the arc is tried, so the flags are reset also
+    when the arc is refused and the `assert added` fails. -/
 def ArcObj.checkAndAddExitArc (exit : ArcObj → ArcObj) (o : ArcObj) (n : Nat) (cost : Rat) : ArcObj × Except Err Unit :=
   if o.inst.g.hasArc n 0 then (o, .ok ())
   else
-    let a := gstep .base o.inst.g (.addArc (nameOf o.inst.g n) (nameOf o.inst.g 0) 0 cost)
+    let a := o.mutate (.op (.addArc (nameOf o.inst.g n) (nameOf o.inst.g 0) 0 cost))
     match a.2 with
-    | .ok (some true) => (exit { o with inst := { o.inst with g := a.1 } }, .ok ())
-    | _ => (o, .error .assert)
+    | .ok (some true) => (exit a.1, .ok ())
+    | _ => (a.1, .error .assert)
 
-/-- one iteration of `for n in unvisited_indices:`; `head` is the flag action at the loop head -/
+/-- one iteration of `for n in unvisited_indices:`; `head` is the explicit flag action at the loop head.  The entry arc
+    is added through the public `add_arc` (hook, then the arc). -/
 def ArcObj.dummyStep (head exit : ArcObj → ArcObj) (t0 high : Rat) (o : ArcObj) (used : List ATup) (n : Nat) :
     ArcObj × Except Err (List ATup) :=
   let o0 := head o
   if o0.inst.g.hasArc 0 n then (o0, .error .assert)
   else
-    let a := gstep .base o0.inst.g (.addArc (nameOf o0.inst.g 0) (nameOf o0.inst.g n) 0 high)
+    let a := o0.mutate (.op (.addArc (nameOf o0.inst.g 0) (nameOf o0.inst.g n) 0 high))
+    let o1 := a.1
     match a.2 with
     | .ok (some true) =>
-      let o1 : ArcObj := { o0 with inst := { o0.inst with g := a.1 } }
       match o1.inst.arrival t0 0 n with
       | none => (o1, .error .assert)
       | some arr =>
@@ -265,7 +327,7 @@ def ArcObj.dummyStep (head exit : ArcObj → ArcObj) (t0 high : Rat) (o : ArcObj
           match x.1.inst.arrival arr n 0 with
           | none => (x.1, .error .assert)
           | some arr2 => (x.1, .ok (used ++ [(0, t0, n, arr), (n, arr, 0, arr2)]))
-    | _ => (o0, .error .assert)
+    | _ => (o1, .error .assert)
 
 /-- the loop over the still unvisited nodes; stops at the first failing iteration and keeps the object as it is -/
 def ArcObj.dummyLoop (head exit : ArcObj → ArcObj) (t0 high : Rat) :
@@ -320,6 +382,13 @@ inductive ArcFOp where
   | constraints
   | qubo (feas : Bool) (rho? : Option Rat)
   | heur (high : Rat)
+  -- public mutators
+  | addTimePoints (pts : List Rat)
+  | addArc (orig dest : String) (time cost : Rat)
+  | addNode (name : String) (demand lo : Rat) (hi : ERat)
+  | setDepot (name : String)
+  | setVehicleCap (c : Rat)
+  | setInitialLoading (l : Rat)
 deriving Repr, DecidableEq
 
 inductive ArcReply where
@@ -329,7 +398,8 @@ inductive ArcReply where
   | obj (c : List Rat) (n : Nat)
   | con (A : Coo) (shape : Nat × Nat) (b : List Rat) (n : Nat)
   | qubo (q : QuboOut)
-  | done
+  | done                     -- normal return of the heuristic or of a void mutator
+  | added (b : Bool)         -- return value of `add_arc`
   | raised (e : Err)
 deriving Repr, DecidableEq
 
@@ -337,7 +407,32 @@ def ArcFOp.isHeur : ArcFOp → Bool
   | .heur _ => true
   | _ => false
 
-/-- one call on the object, with the two flag actions of the heuristic as parameters -/
+/-- the graph-level call behind a mutator of the base class -/
+def ArcFOp.gmut? : ArcFOp → Option GMut
+  | .addArc o d t c => some (.op (.addArc o d t c))
+  | .addNode nm dem lo hi => some (.op (.addNode nm dem lo hi))
+  | .setDepot nm => some (.op (.setDepot nm))
+  | .setVehicleCap c => some (.cap c)
+  | .setInitialLoading l => some (.init l)
+  | _ => none
+
+def ArcFOp.isMutator : ArcFOp → Bool
+  | .addTimePoints _ => true
+  | op => op.gmut?.isSome
+
+/-- a state-changing call: a heuristic run or a mutator -/
+def ArcFOp.isChange (op : ArcFOp) : Bool := op.isHeur || op.isMutator
+
+/-- a query: neither a heuristic run nor a mutator -/
+def ArcFOp.isQuery (op : ArcFOp) : Bool := !op.isChange
+
+/-- reply of a mutator: `done` for the void ones, the returned boolean for `add_arc`, the exception otherwise -/
+def ArcReply.ofGOut : GOut → ArcReply
+  | .ok none => .done
+  | .ok (some b) => .added b
+  | .error e => .raised e
+
+/-- one call on the object, with the two explicit flag actions of the heuristic as parameters -/
 def ArcObj.stepWith (head exit : ArcObj → ArcObj) (o : ArcObj) : ArcFOp → ArcObj × ArcReply
   | .numVars => let r := o.getNumVariables; (r.1, .num r.2)
   | .varIndex u => let r := o.getVarIndex u; (r.1, .idx r.2)
@@ -350,6 +445,12 @@ def ArcObj.stepWith (head exit : ArcObj → ArcObj) (o : ArcObj) : ArcFOp → Ar
   | .heur high =>
     let r := o.makeFeasibleWith head exit high
     (r.1, match r.2 with | .ok _ => .done | .error e => .raised e)
+  | .addTimePoints pts => (o.addTimePoints pts, .done)
+  | .addArc og d t c => let r := o.mutate (.op (.addArc og d t c)); (r.1, .ofGOut r.2)
+  | .addNode nm dem lo hi => let r := o.mutate (.op (.addNode nm dem lo hi)); (r.1, .ofGOut r.2)
+  | .setDepot nm => let r := o.mutate (.op (.setDepot nm)); (r.1, .ofGOut r.2)
+  | .setVehicleCap c => let r := o.mutate (.cap c); (r.1, .ofGOut r.2)
+  | .setInitialLoading l => let r := o.mutate (.init l); (r.1, .ofGOut r.2)
 
 /-- one call on the real object -/
 def ArcObj.step (o : ArcObj) (op : ArcFOp) : ArcObj × ArcReply := o.stepWith ArcObj.resetAll ArcObj.resetAll op
@@ -434,6 +535,11 @@ structure ArcAbs where
 
 def ArcObj.abs (o : ArcObj) : ArcAbs := { inst := o.inst, sol := o.sol }
 
+/-- a base-class mutator on the abstract state: the `vrptw` call on the problem data -/
+def ArcAbs.mutate (s : ArcAbs) (m : GMut) : ArcAbs × ArcReply :=
+  let a := gmut .base s.inst.g m
+  ({ s with inst := { s.inst with g := a.1 } }, .ofGOut a.2)
+
 /-- the same calls answered from the instance state alone -/
 def ArcAbs.specStep (s : ArcAbs) : ArcFOp → ArcAbs × ArcReply
   | .numVars => (s, .num s.inst.vars.length)
@@ -449,6 +555,12 @@ def ArcAbs.specStep (s : ArcAbs) : ArcFOp → ArcAbs × ArcReply
     | .ok sol => ({ inst := r.1, sol := some sol }, .done)
     | .lookupFailed => ({ inst := r.1, sol := none }, .raised .value)
     | .raised e => ({ inst := r.1, sol := s.sol }, .raised e)
+  | .addTimePoints pts => ({ s with inst := s.inst.addTimePoints pts }, .done)
+  | .addArc og d t c => s.mutate (.op (.addArc og d t c))
+  | .addNode nm dem lo hi => s.mutate (.op (.addNode nm dem lo hi))
+  | .setDepot nm => s.mutate (.op (.setDepot nm))
+  | .setVehicleCap c => s.mutate (.cap c)
+  | .setInitialLoading l => s.mutate (.init l)
 
 def ArcAbs.specRun (s : ArcAbs) : List ArcFOp → ArcAbs × List ArcReply
   | [] => (s, [])
@@ -477,8 +589,9 @@ structure SeqObj where
   quadShape : Nat := 0
   sol : Option (List Rat) := none
 
-/-- `SequenceBasedRoutingProblem.__init__` + `set_max_vehicles` + `set_max_sequence_length` (the two setters write no
-    flag in the code either, they are part of the initial problem data here) -/
+/-- `SequenceBasedRoutingProblem.__init__` + `set_max_vehicles` + `set_max_sequence_length` on the fresh object (all
+    flags are still unset, so the hook of the two setters changes nothing; later calls of the setters are the
+    operations `setMaxVehicles` / `setMaxSeqLen`) -/
 def SeqObj.init (I : SeqInst) : SeqObj := { inst := I }
 
 /-- `enumerate_variables` -/
@@ -572,13 +685,51 @@ def SeqObj.getQubo (o : SeqObj) (feas : Bool) (rho? : Option Rat) : SeqObj × Ex
 def SeqObj.resetAll (o : SeqObj) : SeqObj :=
   { o with variablesEnumerated := false, objectiveBuilt := false, linConBuilt := false, quadConBuilt := false }
 
-/-- `_ensure_exit_arc(node_index)`; `exit` is the flag action after a successful `add_arc` -/
+/-- the hook `SequenceBasedRoutingProblem._problem_changed()` (the same four assignments) -/
+def SeqObj.problemChanged (o : SeqObj) : SeqObj := o.resetAll
+
+/-- a public mutator forwarded to the `vrptw` object, called on the sequence object: `add_node`, `set_vehicle_cap`,
+    `set_initial_loading` (base-class methods: hook, then the call), `add_arc` (the override: hook, then the strict /
+    base rule) and `set_depot` (the override calls the base-class method — hook, `vrptw.set_depot` — then re-adds the
+    arcs through `self.add_arc` in strict mode — hook again, the flags are already unset — and installs the depot
+    self-arc).  When the call raises, the hook has already run and the problem data are untouched. -/
+def SeqObj.mutate (o : SeqObj) (m : GMut) : SeqObj × GOut :=
+  let o0 := o.problemChanged
+  let a := gmut (.seq o0.inst.strict) o0.inst.g m
+  ({ o0 with inst := { o0.inst with g := a.1 } }, a.2)
+
+/-- `set_max_vehicles(v)`; `hook` is the flag action at the top of the method (`problemChanged` in the code) -/
+def SeqObj.setMaxVehiclesWith (hook : SeqObj → SeqObj) (o : SeqObj) (v : Nat) : SeqObj :=
+  let o0 := hook o
+  { o0 with inst := o0.inst.setMaxVehicles v }
+
+/-- `SequenceBasedRoutingProblem.set_max_vehicles(v)` -/
+def SeqObj.setMaxVehicles (o : SeqObj) (v : Nat) : SeqObj := o.setMaxVehiclesWith SeqObj.problemChanged v
+
+/-- `SequenceBasedRoutingProblem.set_max_sequence_length(l)` -/
+def SeqObj.setMaxSeqLen (o : SeqObj) (l : Nat) : SeqObj :=
+  let o0 := o.problemChanged
+  { o0 with inst := o0.inst.setMaxSeqLen l }
+
+/-- `self.add_arc(node_names[i], node_names[j], t, c)` as the heuristic calls it: the public mutator (hook first), and
+    whether it returned `True`.  The flags are reset also when the arc is refused. -/
+def SeqObj.addArcIdx (o : SeqObj) (i j : Nat) (t c : Rat) : SeqObj × Bool :=
+  let a := o.mutate (.op (.addArc (nameOf o.inst.g i) (nameOf o.inst.g j) t c))
+  match a.2 with
+  | .ok (some true) => (a.1, true)
+  | _ => (a.1, false)
+
+/-- `if not self.check_arc((i, j)): if not self.add_arc(...): raise ValueError` of the dummy-vehicle loop: the object
+    afterwards and whether the arc is there (`false` = the code raises).  No flag is touched when the arc exists. -/
+def SeqObj.ensureArc (o : SeqObj) (i j : Nat) (t c : Rat) : SeqObj × Bool :=
+  if o.inst.g.hasArc i j then (o, true) else o.addArcIdx i j t c
+
+/-- `_ensure_exit_arc(node_index)`; `exit` is the explicit flag action after a successful `add_arc` -/
 def SeqObj.ensureExitArc (exit : SeqObj → SeqObj) (o : SeqObj) (cur : Nat) : SeqObj × Except Err Unit :=
   if o.inst.g.hasArc cur 0 then (o, .ok ())
   else
-    match addArcOrFail (.seq o.inst.strict) o.inst.g cur 0 0 0 with
-    | none => (o, .error .value)
-    | some g' => (exit { o with inst := { o.inst with g := g' } }, .ok ())
+    let a := o.addArcIdx cur 0 0 0
+    if a.2 then (exit a.1, .ok ()) else (a.1, .error .value)
 
 /-- the position loop of one regular vehicle (mirrors `seqFill`) -/
 def SeqObj.fill (exit : SeqObj → SeqObj) (v : Nat) :
@@ -607,22 +758,21 @@ def SeqObj.vehLoop (exit : SeqObj → SeqObj) :
     | .error e => (r.1, .error e)
     | .ok p => SeqObj.vehLoop exit vs r.1 p.1 p.2
 
-/-- one iteration of `for ni in unvisited_indices:` (one dummy vehicle) -/
+/-- one iteration of `for ni in unvisited_indices:` (one dummy vehicle); `head` is the explicit flag action at the loop
+    head.  `max_vehicles` and `vehicle_cost` are written directly (no hook); the two arcs, when missing, are added
+    through the public `add_arc` (hook, then the arc). -/
 def SeqObj.dummyStep (head : SeqObj → SeqObj) (high : Rat) (o : SeqObj) (used : List STup) (ni : Nat) :
     SeqObj × Except Err (List STup) :=
   let o0 := head o
   let v := o0.inst.V
   let o1 : SeqObj := { o0 with inst := { o0.inst with V := v + 1, vcost := o0.inst.vcost ++ [high] } }
-  let fl := Flavor.seq o1.inst.strict
-  match (if o1.inst.g.hasArc 0 ni then some o1.inst.g else addArcOrFail fl o1.inst.g 0 ni 0 high) with
-  | none => (o1, .error .value)
-  | some g1 =>
-    let o2 : SeqObj := { o1 with inst := { o1.inst with g := g1 } }
-    match (if g1.hasArc ni 0 then some g1 else addArcOrFail fl g1 ni 0 0 high) with
-    | none => (o2, .error .value)
-    | some g2 =>
-      let o3 : SeqObj := { o2 with inst := { o2.inst with g := g2 } }
-      (o3, .ok (used ++ [(v, 1, ni)] ++ (List.range (o3.inst.L - 3)).map fun q => (v, q + 2, 0)))
+  let e := o1.ensureArc 0 ni 0 high
+  if e.2 then
+    let x := e.1.ensureArc ni 0 0 high
+    if x.2 then
+      (x.1, .ok (used ++ [(v, 1, ni)] ++ (List.range (x.1.inst.L - 3)).map fun q => (v, q + 2, 0)))
+    else (x.1, .error .value)
+  else (e.1, .error .value)
 
 def SeqObj.dummyLoop (head : SeqObj → SeqObj) (high : Rat) :
     SeqObj → List STup → List Nat → SeqObj × Except Err (List STup)
@@ -674,6 +824,14 @@ inductive SeqFOp where
   | constraints
   | qubo (feas : Bool) (rho? : Option Rat)
   | heur (high : Rat)
+  -- public mutators
+  | setMaxVehicles (v : Nat)
+  | setMaxSeqLen (l : Nat)
+  | addArc (orig dest : String) (time cost : Rat)
+  | addNode (name : String) (demand lo : Rat) (hi : ERat)
+  | setDepot (name : String)
+  | setVehicleCap (c : Rat)
+  | setInitialLoading (l : Rat)
 deriving Repr, DecidableEq
 
 inductive SeqReply where
@@ -683,13 +841,39 @@ inductive SeqReply where
   | obj (c : List Rat) (Q : Coo) (n : Nat)
   | con (A : Coo) (shape : Nat × Nat) (b : List Rat) (R : List (Nat × Nat)) (n : Nat)
   | qubo (q : QuboOut)
-  | done
+  | done                     -- normal return of the heuristic or of a void mutator
+  | added (b : Bool)         -- return value of `add_arc`
   | raised (e : Err)
 deriving Repr, DecidableEq
 
 def SeqFOp.isHeur : SeqFOp → Bool
   | .heur _ => true
   | _ => false
+
+/-- the graph-level call behind a mutator that is forwarded to the `vrptw` object -/
+def SeqFOp.gmut? : SeqFOp → Option GMut
+  | .addArc o d t c => some (.op (.addArc o d t c))
+  | .addNode nm dem lo hi => some (.op (.addNode nm dem lo hi))
+  | .setDepot nm => some (.op (.setDepot nm))
+  | .setVehicleCap c => some (.cap c)
+  | .setInitialLoading l => some (.init l)
+  | _ => none
+
+def SeqFOp.isMutator : SeqFOp → Bool
+  | .setMaxVehicles _ => true
+  | .setMaxSeqLen _ => true
+  | op => op.gmut?.isSome
+
+/-- a state-changing call: a heuristic run or a mutator -/
+def SeqFOp.isChange (op : SeqFOp) : Bool := op.isHeur || op.isMutator
+
+/-- a query: neither a heuristic run nor a mutator -/
+def SeqFOp.isQuery (op : SeqFOp) : Bool := !op.isChange
+
+def SeqReply.ofGOut : GOut → SeqReply
+  | .ok none => .done
+  | .ok (some b) => .added b
+  | .error e => .raised e
 
 def SeqObj.stepWith (head exit : SeqObj → SeqObj) (o : SeqObj) : SeqFOp → SeqObj × SeqReply
   | .numVars => let r := o.getNumVariables; (r.1, .num r.2)
@@ -707,6 +891,13 @@ def SeqObj.stepWith (head exit : SeqObj → SeqObj) (o : SeqObj) : SeqFOp → Se
   | .heur high =>
     let r := o.makeFeasibleWith head exit high
     (r.1, match r.2 with | .ok _ => .done | .error e => .raised e)
+  | .setMaxVehicles v => (o.setMaxVehicles v, .done)
+  | .setMaxSeqLen l => (o.setMaxSeqLen l, .done)
+  | .addArc og d t c => let r := o.mutate (.op (.addArc og d t c)); (r.1, .ofGOut r.2)
+  | .addNode nm dem lo hi => let r := o.mutate (.op (.addNode nm dem lo hi)); (r.1, .ofGOut r.2)
+  | .setDepot nm => let r := o.mutate (.op (.setDepot nm)); (r.1, .ofGOut r.2)
+  | .setVehicleCap c => let r := o.mutate (.cap c); (r.1, .ofGOut r.2)
+  | .setInitialLoading l => let r := o.mutate (.init l); (r.1, .ofGOut r.2)
 
 def SeqObj.step (o : SeqObj) (op : SeqFOp) : SeqObj × SeqReply := o.stepWith SeqObj.resetAll SeqObj.resetAll op
 
@@ -773,6 +964,11 @@ structure SeqAbs where
 
 def SeqObj.abs (o : SeqObj) : SeqAbs := { inst := o.inst, sol := o.sol }
 
+/-- a forwarded mutator on the abstract state: the `vrptw` call (sequence flavour) on the problem data -/
+def SeqAbs.mutate (s : SeqAbs) (m : GMut) : SeqAbs × SeqReply :=
+  let a := gmut (.seq s.inst.strict) s.inst.g m
+  ({ s with inst := { s.inst with g := a.1 } }, .ofGOut a.2)
+
 def SeqAbs.specStep (s : SeqAbs) : SeqFOp → SeqAbs × SeqReply
   | .numVars => (s, .num s.inst.vars.length)
   | .varIndex u => (s, .idx (s.inst.varIndex u))
@@ -796,6 +992,13 @@ def SeqAbs.specStep (s : SeqAbs) : SeqFOp → SeqAbs × SeqReply
     | .ok sol => ({ inst := r.1, sol := some sol }, .done)
     | .lookupFailed => ({ inst := r.1, sol := none }, .raised .value)
     | .raised e => ({ inst := r.1, sol := s.sol }, .raised e)
+  | .setMaxVehicles v => ({ s with inst := s.inst.setMaxVehicles v }, .done)
+  | .setMaxSeqLen l => ({ s with inst := s.inst.setMaxSeqLen l }, .done)
+  | .addArc og d t c => s.mutate (.op (.addArc og d t c))
+  | .addNode nm dem lo hi => s.mutate (.op (.addNode nm dem lo hi))
+  | .setDepot nm => s.mutate (.op (.setDepot nm))
+  | .setVehicleCap c => s.mutate (.cap c)
+  | .setInitialLoading l => s.mutate (.init l)
 
 def SeqAbs.specRun (s : SeqAbs) : List SeqFOp → SeqAbs × List SeqReply
   | [] => (s, [])
